@@ -49,6 +49,7 @@ def nLt : Option Rat → Option Rat → Bool | some a, some b => decide (a < b) 
 def nLe : Option Rat → Option Rat → Bool | some a, some b => decide (a ≤ b) | _, _ => false
 def nGt : Option Rat → Option Rat → Bool | some a, some b => decide (a > b) | _, _ => false
 def nGe : Option Rat → Option Rat → Bool | some a, some b => decide (a ≥ b) | _, _ => false
+def nEq : Option Rat → Option Rat → Bool | some a, some b => decide (a = b) | _, _ => false
 
 /-- one element of `np.allclose(a, b)` with numpy's default tolerances: `|a - b| <= atol + rtol * |b|`, `atol = 1e-8`,
 `rtol = 1e-5` (as decimals; numpy evaluates the right-hand side in floating point, which is not modelled) -/
